@@ -374,7 +374,7 @@ end Yaclib.Props.C03.Unique
 `SharedFuture`, `SharedCore::{SetCallback, SetResult, Retire}`)
 
 The core carries a real reference counter: `count` (3 for the promise, one per SharedFuture copy, one per submitted executor
-job, one per When-style callback in a list); `freed` counts executions of `delete` (the `DecRef` that reached zero);
+job, one per When-style callback in a list or entered and not yet retired); `freed` counts executions of `delete` (the `DecRef` that reached zero);
 `movedOut` says that the stored Result was moved out (`Get() &&` / `Retire()` by the sole owner, the last Connect target).
 Callback objects handed to `SetCallback` are `registered`; running one (`fired`) consumes it. -/
 namespace Yaclib.Props.C03.Shared
@@ -389,10 +389,11 @@ theorem released_at_most_once_Shared (h : Reachable w s) : s.freed ≤ 1 := C06.
 theorem released_iff_last_reference_Shared (h : Reachable w s) : s.freed = 1 ↔ s.count = 0 := C06.freed_iff_count_zero h
 
 /-- (i)/(ii) every unit of the counter has an owner — the promise (3, released around the last callback), the SharedFuture
-    copies of the observers, submitted executor jobs, When-style callbacks still in a list: no `DecRef` without a reference -/
+    copies of the observers, submitted executor jobs, When-style callbacks still in a list or entered and waiting for their
+    combinator's `Retire()`: no `DecRef` without a reference -/
 theorem references_accounted_Shared (h : Reachable w s) :
     s.count = promRefs s.fpc + s.holders + s.jobs.length + s.jobsRun.length
-      + retCnt (wordList s.word) + retCnt (walkList s.fpc) := C06.count_accounts h
+      + retCnt (wordList s.word) + retCnt (walkList s.fpc) + s.rets.length + s.retsLd.length := C06.count_accounts h
 
 /-- (i) no use after free: once the core was deleted NO step of the model is enabled — nobody touches the word, the counter
     or the Result, no callback runs, no executor job of this core exists -/
@@ -404,9 +405,10 @@ theorem quiescent_only_client_references_Shared (h : Reachable w s) (hq : ∀ l 
     s.count = s.holders ∧ s.jobs = [] ∧ s.jobsRun = [] ∧ s.inflight = [] := by
   have hi := inv_reachable h
   obtain ⟨hf, hj, hjr, hin, _, _⟩ := C06.quiescent_complete h hq
+  obtain ⟨hrt, hrl⟩ := C06.quiescent_no_pending_retire h hq
   have hw : s.word = .result := hi.a.word_iff.mpr (by rw [hf]; simp)
   have hcnt := hi.r.cnt
-  rw [hf, hj, hjr, hw] at hcnt
+  rw [hf, hj, hjr, hw, hrt, hrl] at hcnt
   simp [wordList, walkList, retCnt] at hcnt
   exact ⟨hcnt, hj, hjr, hin⟩
 
@@ -437,12 +439,19 @@ theorem quiescent_all_callbacks_consumed_Shared (h : Reachable w s) (hq : ∀ l 
 theorem value_moved_out_once_Shared (h : Reachable w s) (hm : s.movedOut = true) {l : Label} {s' : State} (hs : Step s l s') :
     l.reads = false ∧ l.moves = false := ⟨C06.no_read_after_moveout h hm hs, C06.no_second_moveout h hm hs⟩
 
-/-- (i) an observer moves the Result out only as the sole owner: counter = 1, the promise has released all its references,
-    no executor job, no other SharedFuture -/
+/-- (i) an observer moves the Result out (`Get() &&`) only as the sole owner: counter = 1, the promise has released all its
+    references, no executor job, no pending combinator callback, no other SharedFuture -/
 theorem observer_moves_only_as_sole_owner_Shared (h : Reachable w s) {l : Label} {s' : State} (hs : Step s l s') {t : Nat}
-    (hl : (∃ r, l = .oGot t r true) ∨ (∃ c r n, l = .oRetire t c r true n)) :
-    s.count = 1 ∧ s.fpc = .dec 0 ∧ s.jobs = [] ∧ s.jobsRun = [] ∧ (s.obs t).refs = 1 ∧
+    (hl : ∃ r, l = .oGot t r true) :
+    s.count = 1 ∧ s.fpc = .dec 0 ∧ s.jobs = [] ∧ s.jobsRun = [] ∧ s.rets = [] ∧ s.retsLd = [] ∧ (s.obs t).refs = 1 ∧
     ∀ t', t' ≠ t → (s.obs t').refs = 0 := C06.observer_moves_only_as_sole_owner h hs hl
+
+/-- (i) a combinator's `Retire()` — at any time after its callback was entered, on any thread — moves the Result out only as
+    the sole owner: counter = 1, promise done, no job, no other pending combinator callback, no SharedFuture anywhere -/
+theorem retire_moves_only_as_sole_owner_Shared (h : Reachable w s) {s' : State} {c : Cb} {r : Option Res} {mv : Bool} {n : Nat}
+    (hs : Step s (.rRetire c r mv n) s') (hmv : mv = true) :
+    s.count = 1 ∧ s.fpc = .dec 0 ∧ s.jobs = [] ∧ s.jobsRun = [] ∧ s.rets = [] ∧ s.retsLd.length = 1 ∧
+    ∀ t, (s.obs t).refs = 0 := C06.retire_moves_only_as_sole_owner h hs hmv
 
 /-- (i) the fulfiller moves the Result into a Connect/Share target only when no observer, job or callback holds a reference -/
 theorem fulfiller_moves_only_without_holders_Shared (h : Reachable w s) {s' : State} {c : Cb} {r : Option Res} {mv : Bool}
